@@ -1,6 +1,7 @@
 """C05 — computed Wasserstein distances behave like an optimal-transport cost."""
 import itertools
 import json
+import time
 import random
 import warnings
 
@@ -45,16 +46,22 @@ def solve(darsia, img1, img2, method, l1, mob, weight=None, extra=None, status=F
 ROUTE = [0]
 
 
-def thin_event(darsia, rng, tid, m1, m2, big=False):
+THIN = [-1]
+
+
+def thin_event(darsia, rng, tid, m1, m2, big=False, force=None):
     n = len(m1)
-    dim = rng.choice([1, 2, 2, 3])
-    pos = rng.randrange(dim)
+    # (orientation of the chain: every axis of 1-D, 2-D and 3-D grids in turn)
+    THIN[0] += 1
+    dim, pos = [(1, 0), (2, 0), (2, 1), (3, 0), (3, 1), (3, 2)][THIN[0] % 6]
     shape = tuple(n if a == pos else 1 for a in range(dim))
     hs = [rng.randint(1, 3) for _ in range(dim)]
     h = hs[pos]
     a = int(np.prod([hs[i] for i in range(dim) if i != pos]))
     mode = rng.choice(["cell", "subcell", "rt"])
     method = rng.choice(["newton", "bregman"])
+    if force:
+        mode, method = force
     mob = rng.choice(MOBS)
     # the unique flux is the prefix sum of the mass difference; where it vanishes at an interior face Newton's mobility is 1/regularization
     pre = np.cumsum(np.array(m2) - np.array(m1))[:-1]
@@ -165,6 +172,7 @@ def relations_event(darsia, rng, tid, thin=False):
     # (thin: a path of cells - the flux is unique, so the scaling relations apply whether or not the iteration converged)
     shape = rng.choice([(5,), (4, 1), (1, 6), (1, 3, 1), (7,)]) if thin else rng.choice([(3, 3), (4, 3), (2, 2, 2), (3, 2), (5,), (4, 1), (2, 3, 1), (3, 4)])
     dim = len(shape)
+    XTRA = {"num_iter": 15} if thin else None       # (a path of cells: the iterate is the unique flux after the first steps)
     hs = [rng.choice([1.0, 0.5, 2.0, 0.25]) for _ in range(dim)]
     n = int(np.prod(shape))
     kind = rng.choice(["dense", "compact"])
@@ -186,17 +194,17 @@ def relations_event(darsia, rng, tid, thin=False):
          "self6": 0, "base6": 0, "swap6": 0, "scaled6": 0, "wscaled6": 0, "scale_applicable": 0, "wscale_applicable": 0, "moment6": 0, "min6": -1, "front6": 0, "back6": 0}
     try:
         img1, img2 = make_images(darsia, shape, hs, a1.reshape(shape), a2.reshape(shape))
-        e["self6"] = d6(solve(darsia, img1, img1, method, l1, mob))
-        base, conv = solve(darsia, img1, img2, method, l1, mob, status=True)
+        e["self6"] = d6(solve(darsia, img1, img1, method, l1, mob, extra=XTRA))
+        base, conv = solve(darsia, img1, img2, method, l1, mob, status=True, extra=XTRA)
         e["base6"] = d6(base)
-        e["swap6"] = d6(solve(darsia, img2, img1, method, l1, mob))
+        e["swap6"] = d6(solve(darsia, img2, img1, method, l1, mob, extra=XTRA))
         s1, s2 = make_images(darsia, shape, hs, c * a1.reshape(shape), c * a2.reshape(shape))
-        sc, conv2 = solve(darsia, s1, s2, method, l1, mob, status=True)
+        sc, conv2 = solve(darsia, s1, s2, method, l1, mob, status=True, extra=XTRA)
         e["scaled6"] = d6(sc)
         unique = sum(1 for x in shape if x > 1) <= 1     # a path of cells: no flux cycles, the flux is unique
         e["scale_applicable"] = 1 if unique else int(bool(conv) and bool(conv2))
         w = darsia.Image(np.full(shape, c), space_dim=dim, dimensions=[hs[a] * shape[a] for a in range(dim)], scalar=True)
-        ws, conv3 = solve(darsia, img1, img2, method, l1, mob, weight=w, status=True)
+        ws, conv3 = solve(darsia, img1, img2, method, l1, mob, weight=w, status=True, extra=XTRA)
         e["wscaled6"] = d6(ws)
         e["wscale_applicable"] = 1 if unique else int(bool(conv) and bool(conv3))
         # first moment of the mass difference (cell centres), Euclidean length
@@ -336,8 +344,14 @@ def run(ck, replay=None):
     darsia = import_darsia()
     rng = random.Random(ck.seed)
     quick = ck.tier == "quick"
+    phase_t, phase_s = [time.time()], {}
+
+    def tick(name):
+        phase_s[name] = round(time.time() - phase_t[0], 1)
+        phase_t[0] = time.time()
     from checks.wcommon import solver_twins
-    ck.cov["twin_object_histories"] = solver_twins(ck, darsia, "C05", quick, methods=("newton",) if quick else ("newton", "bregman"))
+    ck.cov["twin_object_histories"] = solver_twins(ck, darsia, "C05", quick, methods=("newton",) if quick else ("newton", "bregman"), nkinds=1 if quick else 3)
+    tick("twins")
     events = []
     sel = rng.sample(pairs, min(len(pairs), 30 if quick else 800))
     for i, (m1, m2) in enumerate(sel):
@@ -355,17 +369,28 @@ def run(ck, replay=None):
         if sum(m1) == 0:
             continue
         events.append(thin_event(darsia, rng, f"thinlong:{i}", m1, m2))
-    for i in range(6 if quick else 42):    # ~5-15 s each (six solver runs of up to 60 iterations)
+    tick("chains")
+    # chains whose unique flux changes sign inside a cell (without cancelling there): the modes that evaluate the flux off the
+    # cell centre, both methods, along every axis of 1-D, 2-D and 3-D grids
+    for k_ in range(24):
+        m1_, m2_ = ([2, 0, 1], [0, 3, 0]) if k_ % 2 == 0 else ([0, 3, 0, 2], [2, 0, 3, 0])
+        events.append(thin_event(darsia, rng, f"thinsign:{k_}", m1_, m2_, force=(["subcell", "rt"][(k_ // 6) % 2], ["newton", "bregman"][(k_ // 12) % 2])))
+    tick("sign-chains")
+    for i in range(3 if quick else 42):    # ~5-15 s each (six solver runs of up to 60 iterations)
         events.append(relations_event(darsia, rng, f"rel:{i}"))
+    tick("relations")
     for i in range(6 if quick else 36):    # every quadrature mode x method on a path of cells
         events.append(relations_event(darsia, rng, f"relthin:{i}", thin=True))
+    tick("thin-relations")
     for i in range(16 if quick else 150):
         events.append(emd_event(darsia, rng, f"emd:{i}"))
     for i in range(8 if quick else 100):
         events.append(emd_dense_event(darsia, rng, f"emddense:{i}"))
+    tick("emd")
     # the pairwise table of a list of images (distance_matrix), for the OpenCV back-end and for both variational solvers
     for i in range(3 if quick else 9):
         events.append(matrix_event(darsia, rng, f"matrix:{i}", ["emd", "newton", "bregman"][i % 3]))
+    tick("matrix")
     bad = ck.validate("Trace_TransportCost", "Trace.cfg", events, chunk=500)
     for b in bad:
         e = b["event"]
@@ -378,6 +403,8 @@ def run(ck, replay=None):
         else:
             sig = f"C05:{b['clause']}:emd"
         ck.violation(sig, f"{e['op']} violates {b['clause']}", {k: v for k, v in e.items() if k != "tid"})
+    tick("validation")
+    ck.cov["phase_s"] = phase_s
     ck.cov["evaluations"] = len(events)
     ck.cov["distinct_nontrivial"] = len({json.dumps({k: v for k, v in e.items() if k in ("m1", "m2", "shape", "method", "l1", "mode", "mob")}, sort_keys=True) for e in events})
     ck.cov["rule"] = "equal-mass integer pairs on chains enumerated by TLC (quick n<=4, thorough n<=6, entries 0..2) plus seeded chains up to 40 cells, each on a random thin orientation (1-D, n x 1, 1 x n, 3-D) with integer anisotropic sizes, random L1 mode / method / mobility; seeded relation cases on small 1-3-D grids (zero, swap, scaling, constant weight, first moment, certified minimum of the convex discrete cost over <= 12 flux cycles, front-end dispatch); single-cell moves for the OpenCV back-end"
